@@ -8,7 +8,7 @@ import itertools
 
 from mc.checks import stream_corpus as SC
 from mc.core import explore as X
-from mc.core.runner import Result, pyasn1_site, exc_text
+from mc.core.runner import guarded, InternalError, Result, pyasn1_site, exc_text
 from mc.env import streams as ST
 from mc.model import x690 as M
 from mc.model import forms as F
@@ -298,6 +298,36 @@ def explore_m1(sc, R, idx):
     return count
 
 
+def one_scenario(sc, idx, tier, seed, R, maxlen_m1):
+    if not sc.baseline():
+        R.extra['baseline_skipped'] += 1
+        R.sets['baseline_skipped_streams'].add('%s/%s/%s' % (sc.name, sc.decname, 'spec' if sc.use_spec else 'nospec'))
+        return
+    R.extra['streams'] += 1
+    # determinism self-check: the same schedule twice gives identical observations
+    a = sc.run_m2(X.Chooser((0, 1)), 'few')[0]
+    b = sc.run_m2(X.Chooser((0, 1)), 'few')[0]
+    if a != b:
+        raise InternalError('non-deterministic replay for %r' % (sc.key(),))
+    single = len(sc.items) == 1
+    if tier == 'quick':
+        bound = 2 if (single and len(sc.data) <= 40) else 1
+        shorts = 'few'
+    else:
+        bound = 3 if (single and len(sc.data) <= 24) else 2
+        shorts = 'all' if len(sc.data) <= 24 else 'few'
+    ne = explore_m2(sc, bound, shorts, R, idx)
+    R.extra['m2_executions'] += ne
+    R.extra_max['deviation_bound_completed_max'] = max(R.extra_max.get('deviation_bound_completed_max', 0), bound)
+    R.features['bound:%d' % bound] += 1
+    if len(sc.data) <= maxlen_m1:
+        R.extra['m1_executions'] += explore_m1(sc, R, idx)
+        R.features['m1_streams'] += 1
+    if idx % 97 == seed % 97:
+        R.sample({'stream': sc.data.hex(), 'items': [(it[0], it[1]) for it in sc.items], 'kind': sc.kind,
+                  'decoder': sc.decname, 'spec': sc.use_spec, 'bound': bound})
+
+
 def shard(tier, i, n, seed):
     R = Result()
     maxlen_m1 = 12 if tier == 'quick' else 14
@@ -306,33 +336,7 @@ def shard(tier, i, n, seed):
         idx += 1
         if (idx + seed) % n != i:
             continue
-        if not sc.baseline():
-            R.extra['baseline_skipped'] += 1
-            R.sets['baseline_skipped_streams'].add('%s/%s/%s' % (sc.name, sc.decname, 'spec' if sc.use_spec else 'nospec'))
-            continue
-        R.extra['streams'] += 1
-        # determinism self-check: the same schedule twice gives identical observations
-        a = sc.run_m2(X.Chooser((0, 1)), 'few')[0]
-        b = sc.run_m2(X.Chooser((0, 1)), 'few')[0]
-        if a != b:
-            raise RuntimeError('non-deterministic replay for %r' % (sc.key(),))
-        single = len(sc.items) == 1
-        if tier == 'quick':
-            bound = 2 if (single and len(sc.data) <= 40) else 1
-            shorts = 'few'
-        else:
-            bound = 3 if (single and len(sc.data) <= 24) else 2
-            shorts = 'all' if len(sc.data) <= 24 else 'few'
-        ne = explore_m2(sc, bound, shorts, R, idx)
-        R.extra['m2_executions'] += ne
-        R.extra_max['deviation_bound_completed_max'] = max(R.extra_max.get('deviation_bound_completed_max', 0), bound)
-        R.features['bound:%d' % bound] += 1
-        if len(sc.data) <= maxlen_m1:
-            R.extra['m1_executions'] += explore_m1(sc, R, idx)
-            R.features['m1_streams'] += 1
-        if idx % 97 == seed % 97:
-            R.sample({'stream': sc.data.hex(), 'items': [(it[0], it[1]) for it in sc.items], 'kind': sc.kind,
-                      'decoder': sc.decname, 'spec': sc.use_spec, 'bound': bound})
+        guarded(R, lambda: one_scenario(sc, idx, tier, seed, R, maxlen_m1), sc.record(), {'kind:' + sc.kind, 'dec:' + sc.decname}, idx)
     return R
 
 
